@@ -11,7 +11,9 @@ CHECKS = [
      "text": "Every claim of the statement (flat between the balance points, exact line / asymptote beyond them, monotone, "
              "Lipschitz-continuous, loads non-negative, exclusive and additive) is a postcondition of DailyModel._predict_submodel "
              "over all admissible coefficient vectors of all seven shapes and ALL real temperatures; the numba kernel full_model is "
-             "verified against its own contract (curve7) and used modularly. Obligations are generated from /repo's source text on every run. Bounded (labelled so, bounded/C11_floats.py): the same clauses and the documented formula in IEEE doubles through the real prediction path on random coefficient vectors of every shape (smoothing fractions adding up to 1 and more, joints 1e-9 apart, integer temperature dtype): the proofs are over the reals and cannot see rounding.",
+             "verified against its own contract (curve7, result as long as T) and used modularly; models imported from CalTRACK 2.0 parameter files "
+             "(DailyModelParameters.from_2_0_params) record a temperature range that leaves every balance point of the 2.0 grid (30..90 F) strictly inside it, with the "
+             "documented slope signs. Obligations are generated from /repo's source text on every run. Bounded (labelled so, bounded/C11_floats.py): the same clauses and the documented formula in IEEE doubles through the real prediction path on random coefficient vectors of every shape (smoothing fractions adding up to 1 and more, joints 1e-9 apart, integer temperature dtype): the proofs are over the reals and cannot see rounding.",
      "note": "floats as reals (A1), numba==CPython on the subset (A2), exp replaced by axiom instances of the real exponential; "
              "admissibility predicate adm(shape) is what C12 proves of fitted models; known finding C11-edge excluded by its witness class",
      "not_covered": ["floating-point rounding of (m - c) + c in the additive identity", "coefficients outside adm(shape) (hand-written parameter files)"],
@@ -29,8 +31,11 @@ CHECKS = [
     {"id": "C16", "level": "proof", "modules": ["contracts.C16_metrics"], "bounded": ["bounded.C16_metrics", "bounded.C16_fitted", "bounded.C16_caltrack"],
      "technique": "deductive verification: sidecar contracts on the real source, VCs by symbolic execution (pyvc) over abstract aggregates, z3 + bounded differentials (metric classes, fitted models end to end, CalTRACK metrics)",
      "text": "Every computed field of BaselineMetrics / ReportingMetrics equals the textbook formula over abstract aggregates of the "
-             "finite rows (for all n, parameter counts and aggregate values), _safe_divide and both poor-fit gates are verified in iff form. Bounded (labelled so): the statistics a fitted daily / billing / hourly model reports and stores against the formulas applied to its own predict(baseline) (hourly: non-interpolated hours; re-checked after another model was fitted); the CalTRACK hourly ModelMetrics against textbook formulas.",
-     "note": "pandas aggregates (sum, var, quantile, autocorr, corr) are assumed contracts; floats as reals; known finding C16-safe-divide",
+             "finite rows (for all n, parameter counts and aggregate values), _safe_divide and both poor-fit gates are verified in iff form; row-wise: "
+             "BaselineMetrics._df / ReportingMetrics._df keep a row exactly when observed AND predicted are ordinary numbers, values unchanged, residual = observed - predicted; "
+             "DailyModel._get_error_metrics: RMSE / MAE of the residuals, CVRMSE = RMSE / mean(observed), PNRMSE = RMSE / (95th - 5th percentile), from the PLAIN RMSE. Bounded (labelled so): the statistics a fitted daily / billing / hourly model reports and stores against the formulas applied to its own predict(baseline) (hourly: non-interpolated hours; re-checked after another model was fitted); the CalTRACK hourly ModelMetrics against textbook formulas.",
+     "note": "pandas aggregates (sum, var, quantile, autocorr, corr) are assumed contracts; floats as reals; known findings C16-safe-divide, C16-daily-ratio-unguarded "
+             "(the daily CVRMSE / PNRMSE are numbers whatever the sign of their denominator), C16-fsu-zero-savings, C16-caltrack-abs-mean",
      "not_covered": ["numerical accuracy of pandas' var/autocorr/corr", "that X_predict equals what a later predict(baseline) rebuilds (needs a fit)"],
      },
     {"id": "C04", "level": "proof", "modules": ["contracts.C04_gate"], "bounded": ["bounded.C04_gate"],
@@ -78,7 +83,8 @@ CHECKS = [
      "technique": "deductive verification: the real BillingModel.predict executed on the row-wise model with abstract aggregates (pyvc, z3)",
      "text": "For every aggregation argument (all strings symbolically, plus non-string values) the real BillingModel.predict is executed: "
              "unaggregated iff None/any-case 'none', 'monthly' -> MS, 'bimonthly' -> 2MS, anything else rejected; each output column is the "
-             "documented aggregate (sum / mean / root-sum-square / first) of the same prediction frame on its own index with the same period "
+             "documented aggregate (sum / mean / root-sum-square / first; the callable given to apply() is characterised SEMANTICALLY on three symbolic numbers, whatever its "
+             "spelling) of the same prediction frame on its own index with the same period "
              "key, which with the partition law of sums gives conservation of totals across aggregation levels; no column is required that "
              "_predict need not return.",
      "note": "resample().agg() is an abstract aggregate (assumed: groups by calendar period of the series' own index); _predict by its C07 contract; "
@@ -99,7 +105,10 @@ CHECKS = [
      "text": "Proof (daily/billing): for one arbitrary input row the real _predict returns that row exactly once, in a frame produced by "
              "sort_index, without writing to the input, with predicted finite exactly when temperature (and usage, when supplied) is finite. "
              "Bounded-exhaustive (labelled so): the real _get_dst_indices/_transform_dst on every zone of the tz database x every offset change "
-             "2000-2037; real hourly predictions return the reporting frame's index, all finite. Bounded additions: hourly spans that begin / end on the day of the change; every supplied timestamp has its row; the value predicted for a timestamp is unchanged when the span is extended by three days on either side.",
+             "2000-2037; real hourly predictions return the reporting frame's index, all finite. Bounded additions: _transform_dst against a slot-by-slot specification for every set of up to three clock changes on six days in any order (absent / repeated hours 0, 1, 2, 23; "
+             "first and last day); the change day as the first / last day of the frame; spans with several changes, the autumn one first; a span ending on the day clocks go back at "
+             "midnight; two meters whose frames cover the same instants in zones with different changes, predicted one after the other; daily readings stamped at 00:00 / 09:00 in a frame "
+             "with hourly temperatures (one row per local day); hourly spans that begin / end on the day of the change; every supplied timestamp has its row; the value predicted for a timestamp is unchanged when the span is extended by three days on either side.",
      "note": "hourly finiteness depends on fitted coefficients and scalers (bounded only); the data class's contiguous index is C17",
      "not_covered": ["hourly predictions finite for every fitted model (bounded sample only)"],
      },
@@ -139,10 +148,12 @@ CHECKS = [
      "not_covered": ["settings changed after construction through private attributes"],
      },
     {"id": "C13", "level": "proof", "modules": ["contracts.C13_selection", "contracts.C07_mask"], "bounded": ["bounded.C13_combinations", "bounded.pandas_contracts"],
-     "technique": "deductive verification of the argmin selection (symbolic criteria incl. NaN) and of the row routing on the row-wise model (pyvc, z3) + bounded-exhaustive enumeration of the real candidate generator",
+     "technique": "deductive verification of the argmin selection (symbolic criteria incl. NaN and -inf) and of the row routing on the row-wise model (pyvc, z3) + bounded-exhaustive enumeration of the real candidate generator",
      "text": "Proof: the real _best_combination returns the first candidate whose criterion is <= every other finite one, never a NaN-scored "
-             "candidate, for every NaN pattern of up to 4 candidates and all real criterion values; the real _predict/_meter_segment give each "
-             "predicted row the split name of the unique component whose (season, day type) cell contains it (symbolic month and weekday). "
+             "candidate, and the first exactly fitting (-inf) candidate when there is one, for every pattern of {real, NaN, -inf} over up to 4 candidates and all real criterion values; "
+             "the real _predict/_meter_segment give each "
+             "predicted row the split name of the unique component whose (season, day type) cell contains it (symbolic month and weekday of the LOCAL clock: calendar "
+             "fields read after tz_convert(None) / tz_convert('UTC') are unrelated values in the model). "
              "Bounded-exhaustive (labelled so): the real _combinations over the finite space of allow flags x ellipsoid outcomes x day counts; real "
              "predictions via from_dict for every candidate split string x custom season / weekday maps x every date of 2023-2024.",
      "note": "the argmin proof unrolls the candidate list (length fixed per case); selection_criteria's formulas and the ellipsoid filter itself are not under contract",
@@ -170,10 +181,13 @@ CHECKS = [
              "as valid usage iff the reading is present, as valid temperature iff more than 90 % of its readings are present, as valid iff both "
              "(reporting: temperature only), and stores the rounded totals; no_data / negative usage (non-electric baselines only) are sound for the "
              "row; the monthly coverage checks (temperature; hourly: usage for baselines, irradiance when supplied) test the share of present readings "
-             "per calendar month against < 0.9; the hourly sufficiency frame blanks each interpolated value by its own flag. Bounded (labelled so): real "
+             "per calendar month against < 0.9; the hourly sufficiency frame blanks each interpolated value by its own flag; _compute_n_days_total (symbolic "
+             "instants: index.min / max of the COMPLETE rows tied to the arbitrary row, floor-valued .days): span = whole days from the first to the last complete row + 1 "
+             "+ whole days to a requested start / end. Bounded (labelled so): real "
              "data classes (daily, hourly) exactly at every threshold, frame edges, both entry points.",
      "note": "group-by / sum aggregations enter as structural records (assumed pandas contracts); an unrecognised spelling of the monthly share is "
-             "UNDECIDED, a changed column / operator / threshold is a violation. The span (_compute_n_days_total) and the verdicts end to end are "
+             "UNDECIDED, a changed column / operator / threshold is a violation. index.min / max, Timestamp subtraction and .days enter as assumed pandas contracts "
+             "(pd.index_extremes, pd.timedelta_days); the verdicts end to end (incl. a daily meter read off-midnight in a frame with hourly temperatures) are "
              "decided by the bounded part only; known finding C10-offcycle-disqualifies",
      "not_covered": ["_compute_n_days_total (first / last complete row) symbolically", "billing period day counting"],
      },
